@@ -447,11 +447,18 @@ func (m *Machine) step(v ssa.Value, fr *frame) Value {
 				m.end("gopanic", "nil pointer dereference in "+fr.fn.String())
 			}
 			if p.sym != nil {
-				acc := m.term(p.node.elems[p.idx+p.n-1])
-				for i := p.n - 2; i >= 0; i-- {
-					acc = m.tt.Ite(m.tt.Cmp("=", p.sym, m.tt.Const(p.sym.w, uint64(i))), m.term(p.node.elems[p.idx+i]), acc)
+				cells := make([]*Term, p.n)
+				for i := 0; i < p.n; i++ {
+					cells[i] = m.term(p.node.elems[p.idx+i])
 				}
-				return acc
+				if r := m.mapLeaves(cells, p.sym, 0); r != nil {
+					return r
+				}
+				acc := cells[p.n-1]
+				for i := p.n - 2; i >= 0; i-- {
+					acc = m.tt.Ite(m.tt.Cmp("=", p.sym, m.tt.Const(p.sym.w, uint64(i))), cells[i], acc)
+				}
+				return m.collapseIdentity(acc)
 			}
 			return m.copyVal(p.node.elems[p.idx])
 		case token.NOT:
@@ -483,6 +490,22 @@ func (m *Machine) step(v ssa.Value, fr *frame) Value {
 		return Ptr{node: p.node.elems[p.idx].(*Node), idx: in.Field}
 	case *ssa.Index:
 		x := m.eval(in.X, fr)
+		if it := m.term(m.eval(in.Index, fr)); !it.IsConst() {
+			switch a := x.(type) {
+			case Str:
+				return m.indexCells(a.cells, it, "string index", fr)
+			case *Node:
+				if len(a.elems) > 0 && len(a.elems) <= 256 {
+					if _, scalar := a.elems[0].(*Term); scalar {
+						cells := make([]*Term, len(a.elems))
+						for i := range cells {
+							cells[i] = m.term(a.elems[i])
+						}
+						return m.indexCells(cells, it, "array index", fr)
+					}
+				}
+			}
+		}
 		i := int(m.concretize(m.term(m.eval(in.Index, fr)), "index"))
 		switch a := x.(type) {
 		case *Node:
@@ -562,7 +585,7 @@ func (m *Machine) step(v ssa.Value, fr *frame) Value {
 		if l < 0 || c < l {
 			m.end("gopanic", "makeslice: len out of range in "+fr.fn.String())
 		}
-		if c > 1<<20 {
+		if c > 1<<25 {
 			m.end("budget", "huge make")
 		}
 		n := m.newNode(c)
@@ -678,6 +701,124 @@ func (m *Machine) next(it *rangeIter, in *ssa.Next) Value {
 		i = it.perm[i]
 	}
 	return Tuple{m.tt.Bool(true), it.m.keys[i], it.m.vals[i]}
+}
+
+// indexCells reads cells[i] for a symbolic index: bounds obligation first, then an ite chain over the
+// cells (no fork per value).  Long sequences fall back to concretisation.
+func (m *Machine) indexCells(cells []*Term, it *Term, what string, fr *frame) *Term {
+	n := len(cells)
+	if it.IsConst() || n == 0 || n > 256 {
+		i := int(int64(m.concretize(it, what)))
+		if i < 0 || i >= n {
+			m.end("gopanic", fmt.Sprintf("%s %d out of range [%d] in %s", what, i, n, fr.fn))
+		}
+		return cells[i]
+	}
+	inb := m.tt.Bool(true)
+	if uint64(n) <= maxU(it) {
+		inb = m.tt.Cmp("bvult", it, m.tt.Const(it.w, uint64(n)))
+	}
+	if !m.branch(inb) {
+		m.end("gopanic", fmt.Sprintf("%s out of range [%d] in %s", what, n, fr.fn))
+	}
+	if r := m.mapLeaves(cells, it, 0); r != nil {
+		return r
+	}
+	acc := cells[n-1]
+	for i := n - 2; i >= 0; i-- {
+		acc = m.tt.Ite(m.tt.Cmp("=", it, m.tt.Const(it.w, uint64(i))), cells[i], acc)
+	}
+	return m.collapseIdentity(acc)
+}
+
+// mapLeaves pushes a table lookup through an index that is an ite-tree with constant leaves (possibly
+// under zero-extension): table[ite(c,a,b)] = ite(c, table[a], table[b]).  Returns nil when the index has
+// another shape or the tree is large.
+func (m *Machine) mapLeaves(cells []*Term, it *Term, depth int) *Term {
+	if depth > 300 {
+		return nil
+	}
+	switch it.op {
+	case "const":
+		if it.val < uint64(len(cells)) {
+			return cells[it.val]
+		}
+		return nil
+	case "zext":
+		return m.mapLeaves(cells, it.args[0], depth+1)
+	case "ite":
+		a := m.mapLeaves(cells, it.args[1], depth+1)
+		if a == nil {
+			return nil
+		}
+		b := m.mapLeaves(cells, it.args[2], depth+1)
+		if b == nil {
+			return nil
+		}
+		return m.collapseIdentity(m.tt.Ite(it.args[0], a, b))
+	}
+	return nil
+}
+
+// collapseIdentity recognises ite(x=0,0, ite(x=1,1, ... ite(x=k-1,k-1, k))) (a chain that maps x to itself
+// on 0..k with x known to be <= k) and returns x (resized).
+func (m *Machine) collapseIdentity(t *Term) *Term {
+	if t.op != "ite" {
+		return t
+	}
+	var x *Term
+	cur := t
+	seen := map[uint64]bool{}
+	n := 0
+	for cur.op == "ite" {
+		c := cur.args[0]
+		if c.op != "=" {
+			return t
+		}
+		var v, k *Term
+		if c.args[0].IsConst() {
+			k, v = c.args[0], c.args[1]
+		} else if c.args[1].IsConst() {
+			k, v = c.args[1], c.args[0]
+		} else {
+			return t
+		}
+		if x == nil {
+			x = v
+		} else if x != v {
+			return t
+		}
+		if !cur.args[1].IsConst() || cur.args[1].val != k.val {
+			return t
+		}
+		seen[k.val] = true
+		cur = cur.args[2]
+		n++
+		if n > 300 {
+			return t
+		}
+	}
+	if !cur.IsConst() || x == nil {
+		return t
+	}
+	seen[cur.val] = true
+	// every value x can take has to be covered
+	mx := maxU(x)
+	if mx > 300 {
+		return t
+	}
+	for v := uint64(0); v <= mx; v++ {
+		if !seen[v] {
+			return t
+		}
+	}
+	if t.w == x.w {
+		return x
+	}
+	if t.w > x.w {
+		return m.tt.Zext(x, t.w)
+	}
+	return m.tt.Extract(x, t.w-1, 0)
 }
 
 // decodeRune decodes one UTF-8 sequence from (possibly symbolic) cells exactly as the Go
@@ -1059,11 +1200,7 @@ func (m *Machine) lookup(in *ssa.Lookup, fr *frame) Value {
 	x := m.eval(in.X, fr)
 	k := m.eval(in.Index, fr)
 	if s, ok := x.(Str); ok {
-		i := int(m.concretize(m.term(k), "string index"))
-		if i < 0 || i >= len(s.cells) {
-			m.end("gopanic", "string index out of range in "+fr.fn.String())
-		}
-		return s.cells[i]
+		return m.indexCells(s.cells, m.term(k), "string index", fr)
 	}
 	mp := x.(*MapObj)
 	vt := in.X.Type().Underlying().(*types.Map).Elem()
